@@ -191,9 +191,6 @@ def optLen : Option (List UInt8) → Nat
   | none => 0
   | some b => b.length
 
-/-- A message the encoder can represent and that is not a compression wrapper: magic 0 without
-    timestamp or magic 1 with an int64 timestamp, attributes one byte with codec bits 0, key,
-    value and the whole encoded message shorter than 2^31 (the size field is an int32). -/
 /-- A message the encoder can represent (any codec bits): magic 0 without timestamp or magic 1 with
     an int64 timestamp, attributes one byte, key, value and the whole message shorter than 2^31. -/
 def encodableMsg (m : Msg) : Bool :=
@@ -203,6 +200,9 @@ def encodableMsg (m : Msg) : Bool :=
   && decide (optLen m.key < 2147483648) && decide (optLen m.value < 2147483648)
   && decide ((encodeMessage m).length < 2147483648)
 
+/-- A message the encoder can represent and that is not a compression wrapper: magic 0 without
+    timestamp or magic 1 with an int64 timestamp, attributes one byte with codec bits 0, key,
+    value and the whole encoded message shorter than 2^31 (the size field is an int32). -/
 def plainMsg (m : Msg) : Bool :=
   ((m.magic == 0 && m.ts == none) ||
     (m.magic == 1 && (match m.ts with | some t => int64 t | none => false)))
